@@ -40,7 +40,7 @@ CHECKS['C01'] = ('model_checking',
          'its argument alphabets (angle ladders at 0, +-pi/2, +-pi, 2pi, many turns, both units, all orders and aliases, '
          'axes x lengths 1e-3..1e6, OA pairs, vector angles, RNG seeds), and a breadth-first exploration from a generator set '
          'under *, /, inv, **n (|n|<=8), prod, interp with the validity invariant (1e-9) evaluated on every reached value.',
-         'Bounded to the enumerated letters and BFS depth 2 (thorough 3). OA pairs closer than 1e-3 rad are outside (numerically parallel).',
+         'Bounded to the enumerated letters and BFS depth 2 (quick: 12 roots x 6 composition letters; thorough: ~100 roots x 16). OA pairs closer than 1e-3 rad are outside (numerically parallel).',
          'DESIGN.md 3/C01')
 CHECKS['C04'] = ('model_checking',
          'lock-step BFS over product states (reference matrix + one object per representation), plus exhaustive shared-constructor products',
@@ -49,7 +49,7 @@ CHECKS['C04'] = ('model_checking',
          'taken by each representation with its own operator and all conversions back to a matrix, pairwise conversions, round '
          'trips, q == -q and the embeddings are compared with the reference in every state. All shared named constructors '
          '(Rx Ry Rz RPY Eul AngVec EulerVec OA Exp) are compared across classes over their full argument products.',
-         'Bounded: generator set of ~9 (thorough ~100) motions, depth 2 (thorough 3). UnitDualQuaternion has no inverse; it is re-embedded after inv.',
+         'Bounded: ~10 root motions x 6 composition letters, depth 2 (thorough: ~100 roots x 10 letters, depth 3). UnitDualQuaternion has no inverse; it is re-embedded after inv.',
          'DESIGN.md 3/C04')
 CHECKS['C05'] = ('exploration',
          'exhaustive product over angle-triple ladders x orders x flip x units x input forms x entry points, rebuilt by a harness constructor',
